@@ -303,7 +303,10 @@ def inline_new_helpers(facts, known):
     # paths are compared without the names of generic parameters (renaming a type parameter renames no function)
     from ir import canon_generics
     known_c = set(canon_generics(k) for k in known)
-    new = {p: bs[0] for p, bs in by_path.items() if p not in known and canon_generics(p) not in known_c and len(bs) == 1}
+    # a function that carries the name of a known one (a helper moved to another impl, a trait method turned into a
+    # free function) is that helper in another place, not an extraction: it stays a call
+    known_last = set(k.rsplit("::", 1)[-1] for k in known_c)
+    new = {p: bs[0] for p, bs in by_path.items() if p not in known and canon_generics(p) not in known_c and len(bs) == 1 and canon_generics(p).rsplit("::", 1)[-1] not in known_last}
     if not new:
         return 0
     ok_helpers = {}
@@ -424,3 +427,63 @@ def int_classes(n):
         return None
     out.append((None, None, cur))
     return out
+
+
+
+def defer_let_branches(body):
+    """(used by the sibling skeletons only) `let x = match e { P => { S; v }, .. }` / `let x = if c { S; v } else { .. }`
+    written as a declaration followed by the branching statement assigning x in every branch -- the form in which each
+    branch's value is a statement of its own. Returns a rewritten deep copy."""
+    body = copy.deepcopy(body)
+
+    def assign_into(br, pat):
+        if br.get("k") == "Block":
+            if "expr" not in br:
+                return None
+            inner = assign_into(br["expr"], pat)
+            if inner is None:
+                return None
+            stmts = list(br.get("stmts", []))
+            return {"k": "Block", "stmts": stmts + ([inner] if inner.get("k") != "Block" or inner.get("stmts") else []), "s": br.get("s", "")}
+        if br.get("k") == "If" and "el" in br and br["c"].get("k") != "Let":
+            a, b = assign_into(br["th"], pat), assign_into(br["el"], pat)
+            if a is None or b is None:
+                return None
+            return _mk_if(br["c"], a if a.get("k") == "Block" else {"k": "Block", "stmts": [a]}, b if b.get("k") == "Block" else {"k": "Block", "stmts": [b]}, br)
+        if br.get("k") == "Match" and br.get("src") == "Normal":
+            arms = []
+            for a in br["arms"]:
+                x = assign_into(a["body"], pat)
+                if x is None:
+                    return None
+                arms.append(dict(a, body=x if x.get("k") == "Block" else {"k": "Block", "stmts": [x]}))
+            return dict(br, arms=arms)
+        if br.get("k") in ("Ret", "Break", "Continue"):
+            return br
+        if br.get("k") == "Call" and str(br.get("f", {}).get("name", "")).startswith("unreachable"):
+            return br
+        return {"k": "Assign", "l": {"k": "Path", "res": "local", "id": pat["id"], "name": pat["name"]}, "r": br, "s": br.get("s", "")}
+
+    def fn(n):
+        if n.get("k") != "Block":
+            return None
+        out = []
+        changed = False
+        for st in n.get("stmts", []):
+            if st.get("k") == "LetStmt" and st["pat"].get("k") == "PBind" and isinstance(st.get("init"), dict) and st["init"].get("k") in ("Match", "If") and "els" not in st:
+                init = st["init"]
+                if init.get("k") == "If" and ("el" not in init or init["c"].get("k") == "Let"):
+                    out.append(st)
+                    continue
+                branching = assign_into(init, st["pat"])
+                if branching is not None:
+                    decl = {k_: v_ for k_, v_ in st.items() if k_ != "init"}
+                    out.append(decl)
+                    out.append(branching)
+                    changed = True
+                    continue
+            out.append(st)
+        if changed:
+            n["stmts"] = out
+        return None
+    return _rewrite(body, fn)
